@@ -64,11 +64,24 @@ func (w *writerA) cursorSiblings(rule string) {
 					ok, why = false, "bytes are copied to writeBuf at an offset other than w.pos"
 					continue
 				}
-				if src.Kind != core.KSlice || src.Args[1].Kind != core.KNone || src.Args[2].Kind == core.KNone {
-					ok, why = false, "the copied source is not a prefix p[:n]"
+				if src.Kind != core.KSlice || src.Args[2].Kind == core.KNone {
+					ok, why = false, "the copied source is not a bounded slice src[off:off+n]"
 					continue
 				}
+				// n = hi - lo  (p[:n] or p[off:off+n])
 				n := src.Args[2]
+				if lo := src.Args[1]; lo.Kind != core.KNone {
+					hi := src.Args[2]
+					switch {
+					case hi.Kind == core.KBin && hi.Op == token.ADD && hi.Args[0] == lo:
+						n = hi.Args[1]
+					case hi.Kind == core.KBin && hi.Op == token.ADD && hi.Args[1] == lo:
+						n = hi.Args[0]
+					default:
+						ok, why = false, "cannot determine how many bytes are copied from the source slice"
+						continue
+					}
+				}
 				if !(n.Kind == core.KExtract && n.Args[0].Kind == core.KCall && n.Args[0].Ref == interface{}(w.ncopy)) {
 					ok, why = false, "the copied amount is not the count granted by ncopy"
 				}
